@@ -507,3 +507,12 @@ class FuncSort(Sort):
   def __init__(self, args, ret, name=None):
     self.args, self.ret = tuple(args), ret
     self.name = name or ('Fn<' + ','.join(a.name for a in self.args) + '->' + ret.name + '>')
+
+
+class AnySort(Sort):
+  """return 'sort' of functions whose result is not modelled (closures, opaque python objects):
+  the result is not coerced and contracts must not mention `result`"""
+  name = 'Any'
+
+
+ANY = AnySort()
